@@ -178,6 +178,9 @@ fn collect_types_to_bind(
         fields
             .iter()
             .filter(|field| {
+                // Skipped fields are not part of the type info, so need no bounds.
+                !utils::should_skip(&field.attrs)
+                &&
                 // Only add a bound if the type uses a generic.
                 type_contains_idents(&field.ty, ty_params)
                 &&
@@ -201,6 +204,7 @@ fn collect_types_to_bind(
         syn::Data::Enum(ref data) => data
             .variants
             .iter()
+            .filter(|variant| !utils::should_skip(&variant.attrs))
             .flat_map(|variant| match &variant.fields {
                 syn::Fields::Named(syn::FieldsNamed { named: fields, .. })
                 | syn::Fields::Unnamed(syn::FieldsUnnamed {
